@@ -162,3 +162,41 @@ func VerifC07_SinkError() {
 	ls.Lock() // the scrubber's mutex was released on the error path
 	ls.Unlock()
 }
+
+// VerifC07_ConcurrentWriters: two goroutines write through one LogScrubber at the same time
+// (log.Logger serialises its own writes, but several loggers may share the writer). Every line
+// reaches the sink whole, scrubbed, exactly once, and the scrubber's state is never accessed
+// without its lock (happens-before monitor).
+func VerifC07_ConcurrentWriters() {
+	out := &verifOut{}
+	ls := &LogScrubber{Output: out}
+	done := make(chan bool, 2)
+	go func() {
+		ls.Write([]byte("A1"))
+		ls.Write([]byte("A2\n"))
+		done <- true
+	}()
+	go func() {
+		ls.Write([]byte("b\n"))
+		done <- true
+	}()
+	<-done
+	<-done
+	verifapi.Cover("both writers done")
+	verifapi.Assert(!out.bad, "only complete lines reach the sink")
+	// the partial "A1" may be followed by the other writer's "b\n" (bytes are buffered in arrival
+	// order), but nothing is lost, duplicated or left unscrubbed
+	as, bs, nl := 0, 0, 0
+	for _, c := range out.buf {
+		switch c {
+		case 'A' | 0x80:
+			as++
+		case 'b' | 0x80:
+			bs++
+		case '\n':
+			nl++
+		}
+		verifapi.Assert(c == '\n' || c&0x80 != 0, "every emitted byte went through the scrubber")
+	}
+	verifapi.Assert(as == 2 && bs == 1 && nl == 2 && len(out.buf) == 7, "every byte written is emitted exactly once")
+}
